@@ -7,6 +7,16 @@ BASE = ("cd /repo && /venv/bin/python -m pytest -ra -q -p no:cacheprovider --tim
         "--continue-on-collection-errors")
 
 CLAIMED = {
+    'C12': dict(
+        text="TokenCodec.tla transcribes the string-like codecs (EscapedString escape/unescape, BlockComment format/parse/line splitting, InlineComment) over character classes; TLC checks the round-trip laws for every class string up to the bound and the token state machine [value, indent, raw] under every value / indent / raw_text assignment sequence; every string (3 concrete representatives per class incl. astral characters, FF/NEL/U+2028, CR LF / CR CR LF) is replayed on the real classes: value read-back, raw text lexed back by the real lexer as exactly one token of the type with the value, host document round trip, from_raw_text verbatim. Dates, plain-notation decimals and the simple token types are covered by shape lists checked against the lexer.",
+        note="Small scope over character classes (strings <= 3-4 classes); one lossy case (inline comment value starting with a blank) is a recorded finding.",
+        technique="TLA+ TokenCodec laws (TLC) + replay on the real token classes and lexer",
+        ref="§6 C12"),
+    'C15': dict(
+        text="Construct.tla makes every from_value argument combination a state (schemas extracted from inspect.signature: per class every subset of optional/list arguments, and every value selector of each argument with the others present); each is built with the real constructor and checked: printed text accepted by parse() for the class and printing back, content of the parsed model equal to the constructed one, arguments read back from both, well-formed self-contained tree, equal to its deep copy, and assembled into a File that parses back to the same content.",
+        note="Value selectors are representatives (strings needing escapes, negative/zero/tiny numbers, early dates, multi-line comments, custom value runs needing disambiguation).",
+        technique="TLA+ Construct argument-space enumeration (TLC) + construction / re-parse comparison",
+        ref="§6 C15"),
     'C17': dict(
         text="Spacing.tla defines, over a token row of kinds zero-width / blank / newline / other, the run a spacing accessor denotes and what its setter may change (exactly that run, replaced by fresh whitespace tokens of the assigned length, everything else identical in identity and order, non-empty values read back); get / set executions on every model and token with accessors of Layout.tla documents (both sides, sampled strings over space, tab, LF, CRLF, both attribution modes, load factor rotated so runs straddle block boundaries) are recorded and validated by TLC; neighbours sharing a pure blank gap must read the same string; the tree must stay well formed and a later edit through a neighbour must still work.",
         note="Documents of <= 2-3 lines (+ sampled longer), 2-4 strings per model and side.",
